@@ -159,3 +159,90 @@ func init() {
 		return b.String()
 	}
 }
+
+// decodeConditions lists, in source order, the text of every `if` condition and every `case`
+// expression list of the given function (go/printer, white space normalised), each prefixed with
+// the kind of exit its body starts with when it is a plain return/continue/panic/break.
+func decodeConditions(fset *token.FileSet, fn *ast.FuncDecl) []string {
+	out := []string{}
+	exit := func(body []ast.Stmt) string {
+		if len(body) == 0 {
+			return ""
+		}
+		switch st := body[len(body)-1].(type) {
+		case *ast.ReturnStmt:
+			return " => return"
+		case *ast.BranchStmt:
+			return " => " + st.Tok.String()
+		case *ast.ExprStmt:
+			if call, ok := st.X.(*ast.CallExpr); ok {
+				if id, ok := call.Fun.(*ast.Ident); ok && id.Name == "panic" {
+					return " => panic"
+				}
+			}
+		}
+		return ""
+	}
+	ast.Inspect(fn.Body, func(n ast.Node) bool {
+		switch n := n.(type) {
+		case *ast.IfStmt:
+			init := ""
+			if n.Init != nil {
+				init = printNode(fset, n.Init) + "; "
+			}
+			out = append(out, "if "+init+printNode(fset, n.Cond)+exit(n.Body.List))
+			if blk, ok := n.Else.(*ast.BlockStmt); ok {
+				out = append(out, "else of "+printNode(fset, n.Cond)+exit(blk.List))
+			}
+		case *ast.ForStmt:
+			if n.Cond != nil {
+				out = append(out, "for "+printNode(fset, n.Cond))
+			} else {
+				out = append(out, "for")
+			}
+		case *ast.CaseClause:
+			parts := []string{}
+			for _, e := range n.List {
+				parts = append(parts, printNode(fset, e))
+			}
+			if len(parts) == 0 {
+				out = append(out, "default"+exit(n.Body))
+			} else {
+				out = append(out, "case "+strings.Join(parts, ", ")+exit(n.Body))
+			}
+		}
+		return true
+	})
+	return out
+}
+
+func init() {
+	extractors["DecodeShape"] = func() string {
+		var b strings.Builder
+		b.WriteString("-- Source: decoder.go — the conditions of Decoder.Decode and parseLine in source order (go/ast,\n")
+		b.WriteString("-- printed with go/printer, white space normalised), with the exit their branch ends in.\n")
+		b.WriteString("namespace Gedcom.Generated\n\n")
+		fset := token.NewFileSet()
+		file, err := parser.ParseFile(fset, filepath.Join(repoRoot(), "decoder.go"), nil, 0)
+		lists := map[string][]string{}
+		if err == nil {
+			for _, d := range file.Decls {
+				if fn, ok := d.(*ast.FuncDecl); ok && fn.Body != nil {
+					switch fn.Name.Name {
+					case "Decode", "parseLine", "readLine", "consumeOptionalBOM":
+						lists[fn.Name.Name] = decodeConditions(fset, fn)
+					}
+				}
+			}
+		}
+		for _, name := range []string{"Decode", "parseLine", "readLine", "consumeOptionalBOM"} {
+			q := []string{}
+			for _, s := range lists[name] {
+				q = append(q, strconv.Quote(s))
+			}
+			fmt.Fprintf(&b, "def conditionsOf%s : List String := [\n  %s]\n\n", strings.ToUpper(name[:1])+name[1:], strings.Join(q, ",\n  "))
+		}
+		b.WriteString("end Gedcom.Generated\n")
+		return b.String()
+	}
+}
